@@ -21,33 +21,54 @@ def leg_blocks(leg):
     return [[int(s), [int(x) for x in c]] for s, c in zip(leg.get_block_sizes(), leg.charges)]
 
 
+DTYPES = {'f8': np.float64, 'c16': np.complex128, 'f4': np.float32, 'c8': np.complex64, 'i8': np.int64}
+
+
+def case_dtype(case):
+    return case.get('dtype') or ('c16' if case.get('complex') else 'f8')
+
+
+def eps_scale(case):
+    """factor on the double precision tolerances for single precision inputs"""
+    return 3e5 if case_dtype(case) in ('f4', 'c8') else 1.0
+
+
 def make_matrix(case):
     """random rank-2 Array: tensor of rank >= 2 with the legs of the case, combined into 2 legs"""
     import tenpy.linalg.np_conserved as npc
     rng = np.random.default_rng(case['seed'])
     ci = npc.ChargeInfo(list(case['mods']))
     legs = [mk_leg(ci, s) for s in case['legs']]
-    if case.get('square'):
+    groups = case.get('combine')
+    pipe_qconj = case.get('pipe_qconj', [1, -1])
+    if case.get('pipe_square'):
+        # square matrix over a LegPipe and its conjugate (two-site operator): the legs of the matrix ARE LegPipes
+        legs = legs + [l.conj() for l in legs]
+        n = len(legs) // 2
+        groups = [list(range(n)), list(range(n, 2 * n))]
+        pipe_qconj = [1, -1]
+    elif case.get('square'):
         legs = [legs[0], legs[0].conj()]
     rank = len(legs)
-    if case.get('zero_qtotal'):
+    if case.get('qtotal_explicit') is not None:
+        qtotal = ci.make_valid(np.array(case['qtotal_explicit'], dtype=np.int64).reshape(ci.qnumber))
+    elif case.get('zero_qtotal') or case.get('pipe_square'):
         qtotal = None
     elif ci.qnumber and not case.get('square'):
         qtotal = ci.make_valid(np.sum([l.get_charge(q % l.block_number) for l, q in zip(legs, case['qtotal_block'])], axis=0))
     else:
         qtotal = None
-    cplx = bool(case.get('complex'))
+    dt = case_dtype(case)
+    cplx = dt in ('c16', 'c8')
 
     def func(shape):
         x = rng.integers(-9, 10, size=shape).astype(np.float64)
         if cplx:
             x = x + 1j * rng.integers(-9, 10, size=shape)
-        return x
-    a = npc.Array.from_func(func, legs, dtype=np.complex128 if cplx else np.float64, qtotal=qtotal,
-                            labels=['l%d' % i for i in range(rank)])
-    groups = case.get('combine')
+        return x.astype(DTYPES[dt])
+    a = npc.Array.from_func(func, legs, dtype=DTYPES[dt], qtotal=qtotal, labels=['l%d' % i for i in range(rank)])
     if groups is not None and rank > 2:
-        a = a.combine_legs(groups, qconj=case.get('pipe_qconj', [1, -1]))
+        a = a.combine_legs(groups, qconj=pipe_qconj)
         if a.rank != 2:
             raise RuntimeError('generator: combine did not give a matrix')
     # block surgery on the matrix
@@ -67,10 +88,116 @@ def make_matrix(case):
         if keep:
             a._data = [a._data[k] for k in keep]
             a._qdata = a._qdata[keep]
+    if case.get('drop_first_last') and a.stored_blocks > 1:
+        # forced boundary: the first and/or the last row sector has no stored block
+        order = np.argsort(a._qdata[:, 0], kind='stable')
+        kill = set()
+        if 'first' in case['drop_first_last']:
+            kill.add(int(order[0]))
+        if 'last' in case['drop_first_last'] and len(order) - len(kill) > 1:
+            kill.add(int(order[-1]))
+        keep = [k for k in range(a.stored_blocks) if k not in kill]
+        a._data = [a._data[k] for k in keep]
+        a._qdata = a._qdata[keep]
     if case.get('hermitian'):
         a = a + a.conj().transpose()
+    if case.get('uplo_garbage') and all(l.is_blocked() for l in a.legs):
+        # eigh/eigvalsh promise to read only the UPLO triangle: put garbage into the other one (only for completely blocked
+        # legs, where the stored blocks are diagonal blocks of `a` itself and the triangle is unambiguous)
+        up = case['opts'].get('UPLO', 'L') == 'L'
+        for blk in a._data:
+            g = rng.integers(1, 9, size=blk.shape).astype(blk.dtype)
+            blk += np.triu(g, 1) if up else np.tril(g, -1)
+    # storage variants: order of the stored blocks (a._qdata not sorted) and memory layout of the blocks
+    if case.get('shuffle') and a.stored_blocks > 1:
+        perm = rng.permutation(a.stored_blocks)
+        a._data = [a._data[k] for k in perm]
+        a._qdata = np.ascontiguousarray(a._qdata[perm])
+        a._qdata_sorted = False
+    lay = case.get('layout', 'C')
+    if lay == 'F':
+        a._data = [np.asfortranarray(b) for b in a._data]
+    elif lay == 'view':
+        new = []
+        for b in a._data:
+            big = np.zeros((2 * b.shape[0] + 1, 2 * b.shape[1] + 1), dtype=b.dtype, order='F' if b.shape[0] % 2 else 'C')
+            v = big[1::2, 1::2]
+            v[...] = b
+            new.append(v)
+        a._data = new
     a.test_sanity()
     return a
+
+
+def hermitian_reference(case, a):
+    """dense matrix eigh/eigvalsh have to diagonalise: the hermitian matrix defined by the UPLO triangle of every stored block"""
+    if not (case.get('uplo_garbage') and all(l.is_blocked() for l in a.legs)):
+        return a.to_ndarray()
+    b = a.copy(deep=True)
+    low = case['opts'].get('UPLO', 'L') == 'L'
+    for k, blk in enumerate(b._data):
+        b._data[k] = (np.tril(blk) + np.tril(blk, -1).conj().T) if low else (np.triu(blk) + np.triu(blk, 1).conj().T)
+    return b.to_ndarray()
+
+
+def snapshot(a):
+    return {'data': [np.array(b, copy=True) for b in a._data], 'qdata': a._qdata.copy(), 'sorted': bool(a._qdata_sorted),
+            'qtotal': a.qtotal.copy(), 'labels': list(a.get_leg_labels()), 'dtype': a.dtype,
+            'legs': [(int(l.qconj), l.slices.copy(), l.charges.copy()) for l in a.legs]}
+
+
+def changed(a, s):
+    """what a factorisation changed on its input Array (None: nothing)"""
+    if len(a._data) != len(s['data']) or any(b.shape != c.shape or not np.array_equal(b, c) for b, c in zip(a._data, s['data'])):
+        return 'entries (_data)'
+    if a._qdata.shape != s['qdata'].shape or not np.array_equal(a._qdata, s['qdata']):
+        return '_qdata'
+    if bool(a._qdata_sorted) != s['sorted']:
+        return '_qdata_sorted'
+    if not np.array_equal(a.qtotal, s['qtotal']) or a.dtype != s['dtype']:
+        return 'qtotal/dtype'
+    if list(a.get_leg_labels()) != s['labels']:
+        return 'labels'
+    if len(a.legs) != len(s['legs']) or any(int(l.qconj) != q or not np.array_equal(l.slices, sl) or not np.array_equal(l.charges, ch)
+                                            for l, (q, sl, ch) in zip(a.legs, s['legs'])):
+        return 'legs'
+    return None
+
+
+def aliases(x, a):
+    """does the returned Array x share entry / block-index memory with the input a?"""
+    if np.may_share_memory(x._qdata, a._qdata):
+        return '_qdata'
+    for b in x._data:
+        for c in a._data:
+            if np.may_share_memory(b, c):
+                return '_data'
+    return None
+
+
+def input_checks(key, a, snap, results, probs, allow_nonfinite=False):
+    """input-unchanged observable + ownership of the returned factors + their use after a deep copy; no NaN / inf in the factors
+    (the norm comparisons of the oracles are blind to NaN)"""
+    c = changed(a, snap)
+    if c is not None:
+        probs.append((key + 'input-changed', 'the input Array was modified by the call: ' + c))
+    for name, x in results:
+        if not all(np.all(np.isfinite(b)) for b in x._data):
+            if not allow_nonfinite and not any(k.startswith(key + 'nan') for k, _ in probs):
+                probs.append((key + 'non-finite', '%s contains NaN or inf' % name))
+            continue
+        al = aliases(x, a)
+        if al is not None:
+            probs.append((key + 'aliases-input', '%s shares %s memory with the input Array' % (name, al)))
+        y = x.copy(deep=True)
+        if sane(y) is None and not np.array_equal(y.to_ndarray(), x.to_ndarray()):
+            probs.append((key + 'copy', 'deep copy of %s differs from %s' % (name, name)))
+
+
+def npc_dist(x, y):
+    """|x - y| computed with npc operations (uses legs, labels, _qdata and _qdata_sorted of the operands)"""
+    import tenpy.linalg.np_conserved as npc
+    return float(npc.norm(x - y))
 
 
 def sane(x):
@@ -112,11 +239,27 @@ def blocked_info(a):
 def run_svd(case):
     import tenpy.linalg.np_conserved as npc
     a = make_matrix(case)
-    ad = a.to_ndarray()
+    snap = snapshot(a)
+    ad = a.to_ndarray().astype(np.complex128 if np.iscomplexobj(a._data[0] if a._data else 0.) else np.float64)
     nrm = max(np.linalg.norm(ad), 1.0)
-    tol = 1e-10 * nrm
-    o = case['opts']
+    es = eps_scale(case)
+    tol = 1e-10 * nrm * es
+    o = dict(case['opts'])
     ci = a.chinfo
+    piped, b, binfo = blocked_info(a)
+    cov = ['dtype=' + case_dtype(case), 'piped=' + ''.join(str(int(x)) for x in piped), 'layout=' + case.get('layout', 'C'),
+           'qdata_sorted=%s' % bool(a._qdata_sorted), 'legs_are_pipes=%s' % type(a.legs[0]).__name__]
+    if es > 1 and o.get('cutoff') in (0.0, 1e-9):
+        o['cutoff'] = None          # single precision: rounding noise of rank deficient blocks is above these cutoffs
+    if o.get('cutoff') == 'tie':
+        # boundary of "(strictly) greater than cutoff": the cutoff IS a singular value (exact for a real 1x1 block)
+        ones = sorted(set(abs(float(blk[0, 0])) for blk in b._data if blk.shape == (1, 1) and not np.iscomplexobj(blk)) - {0.0})
+        if ones:
+            o['cutoff'] = ones[len(ones) // 2]
+            cov.append('cutoff=tie-with-singular-value')
+        else:
+            o['cutoff'] = 2.5
+    cov.append('cutoff=%s' % ('None' if o.get('cutoff') is None else '0.0' if o['cutoff'] == 0 else 'tiny' if o['cutoff'] < 1e-6 else 'large'))
     kw = {'full_matrices': o.get('full_matrices', False), 'inner_qconj': o.get('inner_qconj', 1),
           'inner_labels': o.get('inner_labels', [None, None])}
     if o.get('cutoff') is not None:
@@ -132,13 +275,20 @@ def run_svd(case):
             qreq[k] = ci.make_valid(a.qtotal + 1)
         elif req[k] == 'rest':
             qreq[k] = None
-    if qreq[0] is not None and qreq[1] is not None:
+    if req[1] == 'both' and qreq[0] is not None:      # both requested (consistently)
         qreq[1] = ci.make_valid(a.qtotal - qreq[0])
-    kw['qtotal_LR'] = qreq
-    piped, b, binfo = blocked_info(a)
+    cov.append('qtotal_LR=%s' % ('L+R' if qreq[0] is not None and qreq[1] is not None else 'L' if qreq[0] is not None else
+                                 'R' if qreq[1] is not None else 'default'))
+    # charges as plain lists: only with a single entry (two lists are concatenated by `qtotal_L + qtotal_R` and raise an IndexError)
+    as_list = bool(o.get('q_as_list')) and (qreq[0] is None or qreq[1] is None)
+    kw['qtotal_LR'] = [q if (q is None or not as_list) else [int(x) for x in q] for q in qreq]
+    cov += ['full_matrices=%s' % kw['full_matrices'], 'inner_qconj=%d' % kw['inner_qconj'], 'qtotal_a=%s' % ('0' if not np.any(a.qtotal) else '!=0')]
     out = {'blocked': binfo, 'piped': [int(x) for x in piped], 'qreq': [None if q is None else [int(x) for x in q] for q in qreq],
-           'shape': list(ad.shape), 'stored_blocks': int(a.stored_blocks)}
+           'shape': list(ad.shape), 'stored_blocks': int(a.stored_blocks), 'cov': cov, 'cutoff_used': o.get('cutoff')}
     probs = []
+    intd = ':integer-dtype' if case_dtype(case) == 'i8' else ''
+    if len(b._data) < b.legs[0].block_number or len(b._data) < b.legs[1].block_number:
+        cov.append('one-sided-or-missing-sector')
     # ranks the documentation promises per block: singular values (strictly) greater than cutoff
     nums = []
     for blk in b._data:
@@ -149,16 +299,22 @@ def run_svd(case):
         U, S, VH = npc.svd(a, **kw)
     except RuntimeError as e:
         out['raised'] = 'RuntimeError'
+        cov.append('raises-RuntimeError-no-singular-values')
         if sum(nums) > 0:
             probs.append(('svd:raises', 'svd raised RuntimeError although singular values > cutoff exist'))
+        input_checks('svd:', a, snap, [], probs)
         out['problems'] = probs
         return out
     Ud, Vd = U.to_ndarray(), VH.to_ndarray()
+    if sum(nums) < sum(min(blk.shape) for blk in b._data):
+        cov.append('cutoff-drops-values')
+    if any(n == 0 for n in nums):
+        cov.append('cutoff-drops-whole-block')
     out['S_len'] = int(len(S))
     out['U'] = {'inner': [leg_blocks(U.legs[1]), int(U.legs[1].qconj)], 'qtotal': [int(x) for x in U.qtotal]}
     out['V'] = {'inner': [leg_blocks(VH.legs[0]), int(VH.legs[0].qconj)], 'qtotal': [int(x) for x in VH.qtotal]}
     full = kw['full_matrices']
-    fkey = 'svd-full:' if full else 'svd:'
+    fkey = ('svd-full:' if full else 'svd:')
     M, N = ad.shape
     K = min(M, N)
     if np.any(S < 0) or np.any(np.isnan(S)):
@@ -170,18 +326,18 @@ def run_svd(case):
     Ss = np.sort(S)[::-1]
     if o.get('cutoff') is not None:
         sall = np.linalg.svd(ad, compute_uv=False)
-        lo, hi = int(np.sum(sall > o['cutoff'] + 1e-9 * nrm)), int(np.sum(sall > o['cutoff'] - 1e-9 * nrm))
+        lo, hi = int(np.sum(sall > o['cutoff'] + 1e-9 * nrm * es)), int(np.sum(sall > o['cutoff'] - 1e-9 * nrm * es))
         if len(S) != sum(nums):
             probs.append((fkey + 'S-count', 'number of singular values %d, but %d block singular values are (strictly) greater than the cutoff %r' % (
                 len(S), sum(nums), o['cutoff'])))
         elif not (lo <= len(S) <= hi):
             probs.append((fkey + 'S-count', 'number of singular values > cutoff: %d, dense numpy gives %d..%d' % (len(S), lo, hi)))
-        elif np.max(np.abs(Ss[:lo] - sall[:lo]), initial=0.) > 1e-9 * nrm:
+        elif np.max(np.abs(Ss[:lo] - sall[:lo]), initial=0.) > 1e-9 * nrm * es:
             probs.append((fkey + 'S-values', 'singular values differ from the dense ones'))
     else:
         # singular values of sectors without a stored block (exact zeros) may be left out
         m = min(len(Ss), len(sd))
-        if len(Ss) > len(sd) or np.max(np.abs(Ss[:m] - sd[:m]), initial=0.) > 1e-9 * nrm or np.max(sd[m:], initial=0.) > 1e-9 * nrm:
+        if len(Ss) > len(sd) or np.max(np.abs(Ss[:m] - sd[:m]), initial=0.) > 1e-9 * nrm * es or np.max(sd[m:], initial=0.) > 1e-9 * nrm * es:
             probs.append((fkey + 'S-values', 'singular values differ from the dense ones (%d vs %d)' % (len(Ss), len(sd))))
     if not full:
         rec = Ud @ np.diag(S) @ Vd
@@ -189,11 +345,19 @@ def run_svd(case):
         allowed = tol if o.get('cutoff') is None else tol + np.sqrt(len(sd) + 1) * o['cutoff'] * 0 + np.linalg.norm(
             np.linalg.svd(ad, compute_uv=False)[len(sd):]) + tol
         if err > allowed:
-            probs.append((fkey + 'reconstruct', '|U S VH - a| = %.3e > %.3e' % (err, allowed)))
-        if np.linalg.norm(Ud.conj().T @ Ud - np.eye(len(S))) > 1e-10 * max(1, len(S)):
-            probs.append((fkey + 'U-isometry', 'U^dagger U != 1'))
-        if np.linalg.norm(Vd @ Vd.conj().T - np.eye(len(S))) > 1e-10 * max(1, len(S)):
-            probs.append((fkey + 'V-isometry', 'VH VH^dagger != 1'))
+            probs.append((fkey + 'reconstruct' + intd, '|U S VH - a| = %.3e > %.3e (dtype of a %s, of U %s)' % (err, allowed, a.dtype, U.dtype)))
+        if np.linalg.norm(Ud.conj().T @ Ud - np.eye(len(S))) > 1e-10 * es * max(1, len(S)):
+            probs.append((fkey + 'U-isometry' + intd, 'U^dagger U != 1'))
+        if np.linalg.norm(Vd @ Vd.conj().T - np.eye(len(S))) > 1e-10 * es * max(1, len(S)):
+            probs.append((fkey + 'V-isometry' + intd, 'VH VH^dagger != 1'))
+        # the factors as operands of later npc operations (scale_axis, tensordot, subtraction, norm)
+        if not intd and not charge_rule_violations(U) and not charge_rule_violations(VH):
+            try:
+                d = npc_dist(npc.tensordot(U.scale_axis(S, 1), VH, axes=1), a)
+                if d > allowed + tol:
+                    probs.append((fkey + 'reuse', '|tensordot(U.scale_axis(S), VH) - a| = %.3e with npc operations (dense product is fine: %s)' % (d, err <= allowed)))
+            except Exception as e:
+                probs.append((fkey + 'reuse', 'tensordot(U.scale_axis(S), VH) - a raised %s: %s' % (type(e).__name__, str(e)[:100])))
         if U.shape != (M, len(S)) or VH.shape != (len(S), N):  # noqa
             probs.append((fkey + 'shape', 'shapes %s %s' % (U.shape, VH.shape)))
         if not contractible(U.legs[1], VH.legs[0]):
@@ -206,10 +370,18 @@ def run_svd(case):
         if Ud.shape != (M, M) or Vd.shape != (N, N):
             probs.append((fkey + 'shape:' + cond, 'full_matrices: shapes %s %s, expected (%d,%d) (%d,%d)' % (Ud.shape, Vd.shape, M, M, N, N)))
         else:
-            if np.linalg.norm(Ud.conj().T @ Ud - np.eye(M)) > 1e-10 * M or np.linalg.norm(Ud @ Ud.conj().T - np.eye(M)) > 1e-10 * M:
-                probs.append((fkey + 'U-unitary:' + cond, 'full_matrices=True: U is not unitary'))
-            if np.linalg.norm(Vd.conj().T @ Vd - np.eye(N)) > 1e-10 * N or np.linalg.norm(Vd @ Vd.conj().T - np.eye(N)) > 1e-10 * N:
-                probs.append((fkey + 'V-unitary:' + cond, 'full_matrices=True: VH is not unitary'))
+            if np.linalg.norm(Ud.conj().T @ Ud - np.eye(M)) > 1e-10 * es * M or np.linalg.norm(Ud @ Ud.conj().T - np.eye(M)) > 1e-10 * es * M:
+                probs.append((fkey + 'U-unitary:' + cond + intd, 'full_matrices=True: U is not unitary'))
+            if np.linalg.norm(Vd.conj().T @ Vd - np.eye(N)) > 1e-10 * es * N or np.linalg.norm(Vd @ Vd.conj().T - np.eye(N)) > 1e-10 * es * N:
+                probs.append((fkey + 'V-unitary:' + cond + intd, 'full_matrices=True: VH is not unitary'))
+            if not missing and not intd:
+                # a = U[:, :K] diag(S) VH[:K, :] cannot be asked for the assembled matrices (S is ordered by block), but
+                # blockwise: U^dagger a VH^dagger must be "diagonal" with the singular values
+                core = np.abs(Ud.conj().T @ ad @ Vd.conj().T)
+                thr = 1e-7 * nrm * es
+                big, sb = np.sort(core[core > thr]), np.sort(S[S > thr])
+                if len(big) != len(sb) or np.max(np.abs(big - sb), initial=0.) > 1e-8 * nrm * es:
+                    probs.append((fkey + 'reconstruct:' + cond, 'full_matrices=True: U^dagger a VH^dagger is not diag(S) up to the block order'))
     for name, X, qwant in (('U', U, qreq[0]), ('VH', VH, qreq[1])):
         if charge_rule_violations(X):
             probs.append((fkey + name + '-charge-rule' + (':' + out['full_cond'] if full else ''),
@@ -231,12 +403,16 @@ def run_svd(case):
     il = kw['inner_labels']
     if U.get_leg_labels() != [la[0], il[0]] or VH.get_leg_labels() != [il[1], la[1]]:
         probs.append((fkey + 'labels', 'labels %s %s' % (U.get_leg_labels(), VH.get_leg_labels())))
-    # compute_uv=False
+    # compute_uv=False (with and without the remaining options: they must not matter)
     if not full:
-        kw2 = {k: v for k, v in kw.items() if k in ('cutoff',)}
+        kw2 = {k: v for k, v in kw.items() if (k in ('cutoff',) or (o.get('uv_all_opts') and k != 'full_matrices'))}
         S2 = npc.svd(a, compute_uv=False, **kw2)
-        if len(S2) != len(S) or np.max(np.abs(np.sort(S2) - np.sort(S)), initial=0.) > 1e-9 * nrm:
-            probs.append((fkey + 'compute_uv', 'compute_uv=False gives different singular values'))
+        cov.append('compute_uv=False' + ('+opts' if o.get('uv_all_opts') else ''))
+        if len(S2) != len(S) or np.max(np.abs(S2 - S), initial=0.) > 1e-9 * nrm * es:
+            probs.append((fkey + 'compute_uv', 'compute_uv=False gives different singular values (or a different order)'))
+    input_checks(fkey, a, snap, [('U', U), ('VH', VH)], probs)
+    if np.may_share_memory(U._qdata, VH._qdata) or any(np.may_share_memory(x, y) for x in U._data for y in VH._data):
+        probs.append((fkey + 'aliases-factors', 'U and VH share memory'))
     out['problems'] = probs
     return out
 
@@ -244,52 +420,83 @@ def run_svd(case):
 def run_qr(case):
     import tenpy.linalg.np_conserved as npc
     a = make_matrix(case)
-    o = case['opts']
+    snap = snapshot(a)
+    o = dict(case['opts'])
     ci = a.chinfo
     lq = bool(o.get('lq'))
-    ad = a.to_ndarray()
+    ad = a.to_ndarray().astype(np.complex128 if a.dtype.kind == 'c' else np.float64)
     nrm = max(np.linalg.norm(ad), 1.0)
-    tol = 1e-10 * nrm
+    es = eps_scale(case)
+    tol = 1e-10 * nrm * es
+    intd = ':integer-dtype' if case_dtype(case) == 'i8' else ''
+    if es > 1 and o.get('cutoff') is not None and o['cutoff'] < 1e-6:
+        o['cutoff'] = 1e-4        # single precision: the cutoff has to stay above the rounding noise
     kw = {'mode': o.get('mode', 'reduced'), 'inner_qconj': o.get('inner_qconj', 1), 'inner_labels': o.get('inner_labels', [None, None])}
     if o.get('cutoff') is not None:
         kw['cutoff'] = o['cutoff']
+    cut = o.get('cutoff')
     qt = o.get('qtotal_Q')
     qtq = None
     if qt == 'a':
         qtq = a.qtotal.copy()
     elif qt == 'one':
         qtq = ci.make_valid(np.ones(ci.qnumber, dtype=np.int64))
+    elif qt == 'zero':
+        qtq = ci.make_valid()
     if qtq is not None:
-        kw['qtotal_Q'] = qtq
+        kw['qtotal_Q'] = [int(x) for x in qtq] if o.get('q_as_list') else qtq
     pos = bool(o.get('pos_diag'))
     probs = []
     at = a.transpose() if lq else a
     piped, b, binfo = blocked_info(at)
+    cov = ['dtype=' + case_dtype(case), 'piped=' + ''.join(str(int(x)) for x in piped), 'layout=' + case.get('layout', 'C'),
+           'qdata_sorted=%s' % bool(a._qdata_sorted), 'mode=' + kw['mode'], 'pos_diag=%s' % pos, 'inner_qconj=%d' % kw['inner_qconj'],
+           'qtotal_Q=%s' % ('None' if qtq is None else '0' if not np.any(qtq) else '!=0'), 'qtotal_a=%s' % ('0' if not np.any(a.qtotal) else '!=0'),
+           'cutoff=%s' % ('None' if cut is None else 'tiny' if cut < 1e-3 else 'large'), 'lq=%s' % lq]
+    if len(b._data) < b.legs[0].block_number:
+        cov.append('row-sector-without-block')
+        rows = set(int(x) for x in b._qdata[:, 0])
+        if 0 not in rows:
+            cov.append('first-row-sector-without-block')
+        if b.legs[0].block_number - 1 not in rows:
+            cov.append('last-row-sector-without-block')
     out = {'blocked': binfo, 'piped': [int(x) for x in piped], 'qtq': None if qtq is None else [int(x) for x in qtq],
-           'stored_blocks': int(a.stored_blocks)}
+           'stored_blocks': int(a.stored_blocks), 'cov': cov}
     # per block: number of columns of q the documentation promises (K = min(M, N), or the rank with cutoff)
     ks = []
     singular_diag = False
+    rank_sum, bound2, klow = 0, 0.0, 0
     for blk in b._data:
-        if o.get('cutoff') is None:
+        if cut is None:
             ks.append(int(min(blk.shape)) if kw['mode'] != 'complete' else int(blk.shape[0]))
         else:
             ks.append(None)
         rr = np.linalg.qr(blk, 'r') if min(blk.shape) > 0 else np.zeros((0, 0))
-        if np.any(np.abs(np.diag(rr)) < 1e-12 * max(1., np.linalg.norm(blk))):
+        if np.any(np.abs(np.diag(rr)) < 1e-12 * es * max(1., np.linalg.norm(blk))):
             singular_diag = True
+        sv = np.linalg.svd(blk.astype(np.complex128 if np.iscomplexobj(blk) else np.float64), compute_uv=False)
+        rank_sum += int(np.sum(sv > 1e-9 * es * max(1., np.linalg.norm(blk))))
+        if cut is not None:
+            # pivoted QR: every entry of a discarded row of R is bounded by its diagonal entry <= cutoff
+            K, N = min(blk.shape), blk.shape[1]
+            bound2 += (cut ** 2) * K * N
+            klow += int(np.sum(sv > cut * np.sqrt(K * N) * (1 + 1e-6) + tol))
     out['ks'] = ks
     out['singular_diag'] = singular_diag
+    if singular_diag:
+        cov.append('rank-deficient-block')
     if lq:
         # tie of Model/Factor2.v lq_charges: the blocked structure of `a` ITSELF (the model transposes); rows kept per
         # stored block of a (= columns of q for the transposed block)
         _, ba, binfo_a = blocked_info(a)
         out['blocked_a'] = binfo_a
-        out['ks_a'] = [None if o.get('cutoff') is not None else
+        out['ks_a'] = [None if cut is not None else
                        (int(min(blk.shape)) if kw['mode'] != 'complete' else int(blk.shape[1])) for blk in ba._data]
-    if o.get('cutoff') is not None and np.linalg.norm(ad) == 0:
+    survive = any(np.max(np.linalg.norm(blk, axis=0), initial=0.) > cut for blk in b._data) if cut is not None else True
+    if cut is not None and (np.linalg.norm(ad) == 0 or not survive):
         out['skip'] = True      # rank 0 with a cutoff: no inner leg at all (svd raises RuntimeError there); not required
         out['problems'] = []
+        cov.append('cutoff-leaves-nothing(skipped)')
         return out
     try:
         if lq:
@@ -303,7 +510,7 @@ def run_qr(case):
         return out
     key = 'lq:' if lq else 'qr:'
     Qd, Rd = Qm.to_ndarray(), Rm.to_ndarray()
-    atd = at.to_ndarray()
+    atd = at.to_ndarray().astype(ad.dtype)
     M, N = atd.shape
     Kin = Qd.shape[1]
     out['Q'] = {'inner': [leg_blocks(Qm.legs[1]), int(Qm.legs[1].qconj)], 'qtotal': [int(x) for x in Qm.qtotal]}
@@ -312,17 +519,25 @@ def run_qr(case):
     if nan:
         probs.append((key + 'nan' + (':pos_diag+singular-R-diagonal' if (pos and singular_diag) else ''), 'NaN in Q or R'))
     else:
-        if np.linalg.norm(Qd @ Rd - atd) > tol * (1 if o.get('cutoff') is None else 1e3):
-            probs.append((key + 'reconstruct', '|Q R - a| = %.3e' % np.linalg.norm(Qd @ Rd - atd)))
-        if np.linalg.norm(Qd.conj().T @ Qd - np.eye(Kin)) > 1e-10 * max(1, Kin):
-            probs.append((key + 'isometry', 'Q^dagger Q != 1'))
-        if kw['mode'] == 'complete' and (Qd.shape != (M, M) or np.linalg.norm(Qd @ Qd.conj().T - np.eye(M)) > 1e-10 * M):
-            probs.append((key + 'complete-unitary', "mode='complete': Q is not a square unitary"))
-        if kw['mode'] == 'reduced' and o.get('cutoff') is None and not piped and Kin > min(M, N) + sum(1 for _ in ()):
-            pass
+        allowed = tol if cut is None else tol * 1e3 + np.sqrt(bound2)
+        err = np.linalg.norm(Qd @ Rd - atd)
+        if err > allowed:
+            probs.append((key + 'reconstruct' + intd, '|Q R - a| = %.3e > %.3e (dtype of a %s, of the blocks of Q %s)' % (
+                err, allowed, a.dtype, Qm._data[0].dtype if Qm._data else None)))
+        if np.linalg.norm(Qd.conj().T @ Qd - np.eye(Kin)) > 1e-10 * es * max(1, Kin):
+            probs.append((key + 'isometry' + intd, 'Q^dagger Q != 1'))
+        if kw['mode'] == 'complete' and (Qd.shape != (M, M) or np.linalg.norm(Qd @ Qd.conj().T - np.eye(M)) > 1e-10 * es * M):
+            probs.append((key + 'complete-unitary' + intd, "mode='complete': Q is not a square unitary"))
+        if cut is None and kw['mode'] == 'reduced' and Kin != sum(ks):
+            probs.append((key + 'inner-dim', 'reduced: inner dimension %d, the blocks promise sum min(M_b, N_b) = %d' % (Kin, sum(ks))))
+        if cut is not None:
+            cov.append('cutoff-reduces-K' if Kin < sum(min(blk.shape) for blk in b._data) else 'cutoff-keeps-all')
+            # "discard linearly dependent vectors to given precision": for a cutoff in the gap of the singular values the inner
+            # dimension is the rank; in general at least the number of singular values far above the cutoff and at most the full K
+            if Kin < klow or Kin > sum(min(blk.shape) for blk in b._data) or (cut < 1e-3 and Kin != rank_sum):
+                probs.append((key + 'cutoff-rank', 'cutoff=%r: inner dimension %d, rank of the blocks %d (at least %d values above the cutoff)' % (
+                    cut, Kin, rank_sum, klow)))
         # triangular: within the blocked form (sorted legs) R is upper triangular per block
-        Qb, Rb = (Qm, Rm)
-        # R of the blocked matrix: every stored block of R must be upper triangular
         _, Rblk = Rm.as_completely_blocked() if 1 in piped else (None, Rm)
         for blk in Rblk._data:
             if np.linalg.norm(np.tril(blk, -1)) > tol:
@@ -334,13 +549,21 @@ def run_qr(case):
                 if np.any(np.abs(d.imag) > tol) or np.any(d.real < -tol):
                     probs.append((key + 'pos_diag', 'pos_diag: diagonal of R not >= 0'))
                     break
+        if not intd and not charge_rule_violations(Qm) and not charge_rule_violations(Rm):
+            # the factors as returned (lq: L, Q) as operands of npc operations
+            try:
+                d = npc_dist(npc.tensordot(L, Q, axes=1) if lq else npc.tensordot(Q, R, axes=1), a)
+                if d > allowed + tol:
+                    probs.append((key + 'reuse', '|tensordot of the factors - a| = %.3e with npc operations' % d))
+            except Exception as e:
+                probs.append((key + 'reuse', 'tensordot of the factors - a raised %s: %s' % (type(e).__name__, str(e)[:100])))
     for name, X in (('Q', Qm), ('R', Rm)):
         if charge_rule_violations(X):
             probs.append((key + name + '-charge-rule', '%s has blocks violating the charge rule' % name))
         else:
             s = sane(X)
             if s is not None:
-                probs.append((key + name + '-sanity', '%s fails test_sanity: %s' % (name, s)))
+                probs.append((key + name + '-sanity' + intd, '%s fails test_sanity: %s' % (name, s)))
     want_q = ci.make_valid(qtq) if qtq is not None else ci.make_valid()
     if np.any(Qm.qtotal != want_q) or np.any(ci.make_valid(Qm.qtotal + Rm.qtotal) != a.qtotal):
         probs.append((key + 'qtotal', 'qtotal of Q %s (requested %s), R %s, a %s' % (Qm.qtotal, want_q, Rm.qtotal, a.qtotal)))
@@ -358,6 +581,11 @@ def run_qr(case):
             probs.append((key + 'labels', 'labels %s %s' % (L.get_leg_labels(), Q.get_leg_labels())))
     elif Q.get_leg_labels() != [la[0], il[0]] or R.get_leg_labels() != [il[1], la[1]]:
         probs.append((key + 'labels', 'labels %s %s' % (Q.get_leg_labels(), R.get_leg_labels())))
+    res = [('L', L), ('Q', Q)] if lq else [('Q', Q), ('R', R)]
+    input_checks(key, a, snap, res, probs)
+    x, y = res[0][1], res[1][1]
+    if np.may_share_memory(x._qdata, y._qdata) or any(np.may_share_memory(u, v) for u in x._data for v in y._data):
+        probs.append((key + 'aliases-factors', 'the two factors share memory'))
     out['problems'] = probs
     return out
 
@@ -376,18 +604,35 @@ def spec_dist(w1, w2):
     return float(worst)
 
 
+SORT_KEY = {'m>': lambda w: -np.abs(w), 'm<': lambda w: np.abs(w), '>': lambda w: -np.real(w), '<': lambda w: np.real(w),
+            'LM': lambda w: -np.abs(w), 'SM': lambda w: np.abs(w), 'LR': lambda w: -np.real(w), 'SR': lambda w: np.real(w),
+            'LA': lambda w: -np.real(w), 'SA': lambda w: np.real(w), 'LI': lambda w: -np.imag(w), 'SI': lambda w: np.imag(w)}
+
+
 def run_eig(case):
     import tenpy.linalg.np_conserved as npc
     a = make_matrix(case)
-    ad = a.to_ndarray()
+    snap = snapshot(a)
+    herm = bool(case.get('hermitian'))
+    ad = hermitian_reference(case, a) if herm else a.to_ndarray()
+    ad = ad.astype(np.complex128 if a.dtype.kind == 'c' else np.float64)
     n = ad.shape[0]
     nrm = max(np.linalg.norm(ad), 1.0)
-    tol = 1e-9 * nrm
+    es = eps_scale(case)
+    tol = 1e-9 * nrm * es
     o = case['opts']
-    herm = bool(case.get('hermitian'))
     sort = o.get('sort')
     probs = []
-    out = {'stored_blocks': int(a.stored_blocks), 'n': int(n)}
+    piped, b = a.as_completely_blocked()
+    garbage = bool(case.get('uplo_garbage') and not piped)
+    cov = ['dtype=' + case_dtype(case), 'piped=' + ''.join(str(int(x)) for x in piped), 'layout=' + case.get('layout', 'C'),
+           'qdata_sorted=%s' % bool(a._qdata_sorted), 'legs_are_pipes=%s' % type(b.legs[0]).__name__, 'sort=%s' % sort,
+           'hermitian=%s' % herm]
+    if herm:
+        cov.append('UPLO=%s%s' % (o.get('UPLO', 'L'), '+other-triangle-garbage' if garbage else ''))
+    if len(b._data) < b.legs[0].block_number:
+        cov.append('sector-without-block')
+    out = {'stored_blocks': int(a.stored_blocks), 'n': int(n), 'cov': cov}
     if herm:
         W, V = npc.eigh(a, UPLO=o.get('UPLO', 'L'), sort=sort)
         W2 = npc.eigvalsh(a, UPLO=o.get('UPLO', 'L'), sort=sort)
@@ -397,17 +642,24 @@ def run_eig(case):
         W2 = npc.eigvals(a, sort=sort)
         key = 'eig:'
     Vd = V.to_ndarray()
+    if not (np.all(np.isfinite(W)) and np.all(np.isfinite(W2))):
+        probs.append((key + 'non-finite', 'NaN in the eigenvalues'))
     if np.linalg.norm(ad @ Vd - Vd @ np.diag(W)) > tol:
         probs.append((key + 'eigenpairs', '|a V - V diag(W)| = %.3e' % np.linalg.norm(ad @ Vd - Vd @ np.diag(W))))
-    if herm and np.linalg.norm(Vd.conj().T @ Vd - np.eye(n)) > 1e-10 * n:
+    if herm and np.linalg.norm(Vd.conj().T @ Vd - np.eye(n)) > 1e-10 * es * n:
         probs.append((key + 'unitary', 'V not unitary'))
+    if not herm and np.max(np.abs(np.linalg.norm(Vd, axis=0) - 1), initial=0.) > 1e-8 * es:
+        probs.append((key + 'normalized', 'eigenvectors (columns of V) are not normalized'))
     wd = np.linalg.eigvalsh(ad) if herm else np.linalg.eigvals(ad)
     # eigenvalues of defective (non-hermitian, rank-deficient) blocks are only accurate to ~eps^(1/k)
-    stol = (1e-7 if herm else 1e-4) * nrm
+    stol = (1e-7 if herm else 1e-4) * nrm * es
     if spec_dist(W, wd) > stol:
         probs.append((key + 'spectrum', 'eigenvalues differ from dense numpy (matching distance %.2e)' % spec_dist(W, wd)))
     if spec_dist(W2, W) > stol:
         probs.append((key + 'eigvals', 'eigvals(h) differs from eig(h)'))
+    expect_dtype = np.float64 if herm else np.complex128
+    if W.dtype != expect_dtype or W2.dtype != expect_dtype or W.shape != (n,) or W2.shape != (n,):
+        probs.append((key + 'W-dtype', 'eigenvalues dtype/shape %s %s %s %s' % (W.dtype, W2.dtype, W.shape, W2.shape)))
     if charge_rule_violations(V) or sane(V) is not None:
         probs.append((key + 'V-structure', 'V violates charge rule / test_sanity: %s' % sane(V)))
     if np.any(V.qtotal != 0):
@@ -416,109 +668,276 @@ def run_eig(case):
         probs.append((key + 'labels', 'labels %s' % V.get_leg_labels()))
     if not (np.array_equal(V.legs[0].to_qflat(), a.legs[0].to_qflat()) and V.legs[0].qconj == a.legs[0].qconj):
         probs.append((key + 'outer-leg', 'V.legs[0] differs from a.legs[0]'))
-    # sort order inside the charge blocks of the blocked form
-    if sort is not None:
-        _, b = a.as_completely_blocked()
-        sl = b.legs[0].slices
-        for q in range(b.legs[0].block_number):
-            w = W[sl[q]:sl[q + 1]]
-            k = {'m>': -np.abs(w), 'm<': np.abs(w), '>': -np.real(w), '<': np.real(w)}[sort]
-            if np.any(np.diff(k) < -1e-9 * nrm):
-                probs.append((key + 'sort', 'eigenvalues not sorted by %r inside a charge block' % sort))
+    # eigenvalues live on the blocked form: W[slice of sector q] are the eigenvalues of sector q, sorted by `sort` (eigvals(h): same)
+    sl = b.legs[0].slices
+    flat_b = b.to_ndarray() if not herm else None
+    for q in range(b.legs[0].block_number):
+        w, w2 = W[sl[q]:sl[q + 1]], W2[sl[q]:sl[q + 1]]
+        if spec_dist(w, w2) > stol:
+            probs.append((key + 'eigvals-sector', 'eigvals(h) and eig(h) put different eigenvalues into the slice of charge sector %d' % q))
+            break
+        k = SORT_KEY[sort if sort is not None else '<']
+        if sort is not None or herm:
+            if np.any(np.diff(k(w)) < -1e-9 * nrm * es) or np.any(np.diff(k(w2)) < -1e-9 * nrm * es):
+                probs.append((key + 'sort', 'eigenvalues of eig(h)/eigvals(h) not sorted by %r inside a charge block' % sort))
                 break
-    # expm
-    E = npc.expm(a)
-    import scipy.linalg
-    Ed = scipy.linalg.expm(ad)
-    if np.linalg.norm(E.to_ndarray() - Ed) > 1e-9 * max(1., np.linalg.norm(Ed)):
-        probs.append(('expm:dense', 'expm differs from dense scipy expm'))
-    if charge_rule_violations(E) or sane(E) is not None or np.any(E.qtotal != 0) or E.get_leg_labels() != a.get_leg_labels():
-        probs.append(('expm:structure', 'expm result structure: %s' % sane(E)))
-    for k in (0, 1):
-        if not (np.array_equal(E.legs[k].to_qflat() * E.legs[k].qconj, a.legs[k].to_qflat() * a.legs[k].qconj)):
-            if not np.array_equal(a.chinfo.make_valid(E.legs[k].to_qflat() * E.legs[k].qconj), a.chinfo.make_valid(a.legs[k].to_qflat() * a.legs[k].qconj)):
-                probs.append(('expm:legs', 'expm legs differ'))
-    # speigs on the largest sector
-    _, b = a.as_completely_blocked()
-    bs = b.legs[0].get_block_sizes()
-    q = int(np.argmax(bs))
-    if bs[q] >= 4:
-        sector = b.legs[0].get_charge(q)
-        kk = int(min(o.get('k', 1), bs[q] - 2))
+            if np.max(np.abs(k(w) - k(w2)), initial=0.) > stol:
+                probs.append((key + 'eigvals-order', 'eigvals(h) and eig(h) order the eigenvalues of a sector differently'))
+                break
+    # the result as operand of npc operations: a V = V diag(W)
+    if not garbage and sane(V) is None:
         try:
-            Ws, Vs = npc.speigs(a, sector, kk, which='LM', v0=np.ones(bs[q]))
-            for w, v in zip(Ws, Vs):
-                vd = v.to_ndarray()
-                dt = ':real-Array-dtype-with-complex-data' if (v.dtype.kind == 'f' and (np.iscomplexobj(v._data[0]) or abs(np.imag(w)) > 0)) else ''
-                if np.linalg.norm(ad @ vd - w * vd) > 1e-6 * nrm or abs(np.linalg.norm(vd) - 1) > 1e-8:
-                    probs.append(('speigs:eigenpair' + dt, 'speigs: |a v - w v| = %.3e for the returned Array v (dtype %s, data %s)' % (
-                        np.linalg.norm(ad @ vd - w * vd), v.dtype, v._data[0].dtype)))
-                if np.any(v.qtotal != a.chinfo.make_valid(sector)) or charge_rule_violations(v) or sane(v) is not None:
-                    probs.append(('speigs:structure' + dt, 'speigs vector structure: qtotal %s sector %s, rule violations %d, sanity %s' % (
-                        v.qtotal, sector, charge_rule_violations(v), sane(v))))
-            # dominant eigenvalue of that sector
-            mask = np.zeros(n, bool)
-            perm = None
-            idx = [i for i in range(n) if np.array_equal(a.chinfo.make_valid(a.legs[0].to_qflat()[i] * a.legs[0].qconj), a.chinfo.make_valid(sector))]
-            sub = ad[np.ix_(idx, idx)]
-            wsub = np.linalg.eigvals(sub)
-            if len(Ws) and abs(abs(Ws[np.argmax(np.abs(Ws))]) - np.max(np.abs(wsub))) > 1e-6 * nrm:
-                probs.append(('speigs:dominant', 'largest-magnitude eigenvalue of the sector not found'))
-            out['speigs'] = len(Ws)
+            lhs = npc.tensordot(a, V, axes=1)
+            d = npc_dist(lhs, V.scale_axis(W, 1))
+            if d > tol:
+                probs.append((key + 'reuse', '|tensordot(a, V) - V.scale_axis(W)| = %.3e with npc operations' % d))
         except Exception as e:
-            has_block = any(int(r[0]) == q for r in b._qdata)
-            if 'Arpack' not in type(e).__name__:
-                probs.append(('speigs:raises' + (':missing-sector-block' if (not has_block and isinstance(e, TypeError)) else ''),
-                              'speigs raised %s: %s' % (type(e).__name__, str(e)[:100])))
+            probs.append((key + 'reuse', 'tensordot(a, V) - V.scale_axis(W) raised %s: %s' % (type(e).__name__, str(e)[:100])))
+    input_checks(key, a, snap, [('V', V)], probs)
+    # expm
+    if not garbage:
+        E = npc.expm(a)
+        import scipy.linalg
+        Ed = scipy.linalg.expm(ad)
+        overflow = not np.all(np.isfinite(Ed)) or (es > 1 and np.linalg.norm(Ed) > 1e30)
+        if not overflow and not (np.linalg.norm(E.to_ndarray() - Ed) <= (1e-9 if es == 1 else 2e-2) * max(1., np.linalg.norm(Ed))):
+            probs.append(('expm:dense', 'expm differs from dense scipy expm'))
+        if charge_rule_violations(E) or sane(E) is not None or np.any(E.qtotal != 0) or E.get_leg_labels() != a.get_leg_labels():
+            probs.append(('expm:structure', 'expm result structure: %s' % sane(E)))
+        if E.dtype != np.result_type(np.float64, a.dtype):
+            probs.append(('expm:dtype', 'expm dtype %s for input dtype %s' % (E.dtype, a.dtype)))
+        for k in (0, 1):
+            if E.legs[k].qconj != a.legs[k].qconj or not np.array_equal(E.legs[k].to_qflat(), a.legs[k].to_qflat()):
+                probs.append(('expm:legs', 'expm legs differ from the legs of a ("same legs/labels as a")'))
+                break
+        if herm and sane(E) is None and sane(V) is None:
+            try:
+                d = npc_dist(npc.tensordot(E, V, axes=1), V.scale_axis(np.exp(W), 1))
+                if not overflow and not (d <= (1e-8 if es == 1 else 2e-2) * max(1., np.linalg.norm(Ed))):
+                    probs.append(('expm:reuse', '|tensordot(expm(a), V) - V exp(W)| = %.3e with npc operations' % d))
+            except Exception as e:
+                probs.append(('expm:reuse', 'tensordot(expm(a), V) raised %s: %s' % (type(e).__name__, str(e)[:100])))
+        input_checks('expm:', a, snap, [('expm(a)', E)], probs, allow_nonfinite=overflow)
+        cov.append('expm')
+    # speigs on a charge sector
+    if not garbage:
+        run_speigs(case, a, b, ad, nrm * es, es, probs, cov, out)
+        c = changed(a, snap)
+        if c is not None:
+            probs.append(('speigs:input-changed', 'speigs modified its input: ' + c))
     out['problems'] = probs
     return out
+
+
+def run_speigs(case, a, b, ad, nrm, es, probs, cov, out):
+    import tenpy.linalg.np_conserved as npc
+    o = case['opts']
+    n = ad.shape[0]
+    bs = b.legs[0].get_block_sizes()
+    nb = len(bs)
+    sel = o.get('sector', 'largest')
+    q = int(np.argmax(bs)) if sel == 'largest' else int(sel) % nb
+    d = int(bs[q])
+    sector = b.legs[0].get_charge(q)
+    same = [i for i in range(nb) if np.array_equal(a.chinfo.make_valid(b.legs[0].get_charge(i)), a.chinfo.make_valid(sector))]
+    kk = int(o.get('k', 1))
+    if o.get('k_rel') is not None:          # relative to the sector size: d-2 (last ARPACK value), d-1, d (dense), d+1 (trimmed)
+        kk = max(1, d + int(o['k_rel']))
+    which = o.get('which', 'LM')
+    ret = o.get('ret', 'vectors')
+    has_block = any(int(r[0]) == q for r in b._qdata)
+    arpack = has_block and kk < d - 1
+    v0 = np.ones(d)
+    sec_arg = [int(x) for x in sector] if o.get('sector_as_list') else sector
+    cov.append('speigs:%s,%s,k%sd-1,which=%s,ret=%s' % ('block' if has_block else 'no-block', 'arpack' if arpack else 'dense', '<' if kk < d - 1 else '>=', which, ret))
+    if kk > d:
+        cov.append('speigs:k>d')
+    try:
+        if ret == 'vectors':
+            Ws, Vs = npc.speigs(a, sec_arg, kk, which=which, v0=v0)
+        elif ret == 'kw_false':
+            Ws, Vs = npc.speigs(a, sec_arg, kk, which=which, v0=v0, return_eigenvectors=False), None
+        elif ret == 'args':       # positional arguments of scipy.sparse.linalg.eigs: M, sigma, which, v0, ncv, maxiter, tol, return_eigenvectors
+            Ws, Vs = npc.speigs(a, sec_arg, kk, None, None, which, v0, None, None, 0, True)
+        else:                     # 'args_false'
+            Ws, Vs = npc.speigs(a, sec_arg, kk, None, None, which, v0, None, None, 0, False), None
+    except Exception as e:
+        if 'Arpack' not in type(e).__name__:
+            probs.append(('speigs:raises' + (':missing-sector-block' if (not has_block and isinstance(e, TypeError)) else ''),
+                          'speigs raised %s: %s' % (type(e).__name__, str(e)[:100])))
+        return
+    Ws = np.asarray(Ws)
+    idx = [i for i in range(n) if np.array_equal(a.chinfo.make_valid(a.legs[0].to_qflat()[i] * a.legs[0].qconj), a.chinfo.make_valid(sector))]
+    if len(same) > 1:
+        return      # cannot happen for a completely blocked leg
+    sub = ad[np.ix_(idx, idx)]
+    wsub = np.linalg.eigvals(sub)
+    kexp = min(kk, d)
+    suffix = ':return_eigenvectors=False:dense-branch' if (Vs is None and not arpack and has_block) else ''
+    if len(Ws) != kexp:
+        probs.append(('speigs:count' + suffix, 'speigs(k=%d) in a sector of size %d returned %d eigenvalues (return %s)' % (kk, d, len(Ws), ret)))
+    elif not np.all(np.isfinite(Ws)):
+        probs.append(('speigs:non-finite', 'NaN in the eigenvalues'))
+    else:
+        # the k eigenvalues selected by `which` (up to ties of the selection key; ARPACK: to its tolerance; ARPACK treats
+        # 'LI'/'SI' of a real matrix as |imag| and keeps conjugate pairs together: scipy's convention, not compared)
+        key = SORT_KEY[which] if not (arpack and which in ('LI', 'SI') and a.dtype.kind != 'c') else (lambda w: 0 * np.real(w))
+        want = np.sort(key(wsub))[:kexp]
+        got = np.sort(key(Ws))
+        if np.max(np.abs(want - got), initial=0.) > 1e-6 * nrm:
+            probs.append(('speigs:selection' + suffix, 'speigs(which=%r, k=%d): selection keys of the returned eigenvalues %s, of the sector %s' % (
+                which, kk, np.round(got, 6).tolist(), np.round(want, 6).tolist())))
+        if spec_dist(Ws, [wsub[int(np.argmin(np.abs(wsub - w)))] for w in Ws]) > 1e-6 * nrm:
+            probs.append(('speigs:eigenvalue', 'speigs returned a number which is no eigenvalue of the sector'))
+    if Vs is not None:
+        if len(Vs) != len(Ws):
+            probs.append(('speigs:count-vectors', '%d eigenvalues, %d vectors' % (len(Ws), len(Vs))))
+        for w, v in zip(Ws, Vs):
+            vd = v.to_ndarray()
+            dt = ':real-Array-dtype-with-complex-data' if (v.dtype.kind == 'f' and (np.iscomplexobj(v._data[0]) or abs(np.imag(w)) > 0)) else ''
+            if not (np.linalg.norm(ad @ vd - w * vd) <= 1e-6 * nrm) or not (abs(np.linalg.norm(vd) - 1) <= 1e-8 * es):
+                probs.append(('speigs:eigenpair' + dt, 'speigs: |a v - w v| = %.3e for the returned Array v (dtype %s, data %s)' % (
+                    np.linalg.norm(ad @ vd - w * vd), v.dtype, v._data[0].dtype)))
+            if np.any(v.qtotal != a.chinfo.make_valid(sector)) or charge_rule_violations(v) or sane(v) is not None:
+                probs.append(('speigs:structure' + dt, 'speigs vector structure: qtotal %s sector %s, rule violations %d, sanity %s' % (
+                    v.qtotal, sector, charge_rule_violations(v), sane(v))))
+            elif not dt:
+                try:      # "tensordot(A, V[i], axes=1) = W[i] * V[i]" with npc operations
+                    dd = npc_dist(npc.tensordot(a, v, axes=1), v * w)
+                    if dd > 1e-6 * nrm:
+                        probs.append(('speigs:reuse', '|tensordot(a, v) - w v| = %.3e with npc operations' % dd))
+                except Exception as e:
+                    probs.append(('speigs:reuse', 'tensordot(a, v) - w v raised %s: %s' % (type(e).__name__, str(e)[:100])))
+            if not (np.array_equal(v.legs[0].to_qflat(), a.legs[0].to_qflat()) and v.legs[0].qconj == a.legs[0].qconj):
+                probs.append(('speigs:leg', 'leg of the eigenvector differs from a.legs[0]'))
+            if aliases(v, a):
+                probs.append(('speigs:aliases-input', 'eigenvector shares memory with a'))
+    out['speigs'] = int(len(Ws))
 
 
 def run_pinv(case):
     import tenpy.linalg.np_conserved as npc
     a = make_matrix(case)
-    ad = a.to_ndarray()
+    snap = snapshot(a)
+    ad = a.to_ndarray().astype(np.complex128 if a.dtype.kind == 'c' else np.float64)
     nrm = max(np.linalg.norm(ad), 1.0)
-    tol = 1e-8 * nrm
+    es = eps_scale(case)
+    tol = 1e-8 * nrm * es
+    o = case.get('opts') or {}
+    intd = ':integer-dtype' if case_dtype(case) == 'i8' else ''
     probs = []
-    out = {'stored_blocks': int(a.stored_blocks)}
+    piped, b = a.as_completely_blocked()
+    cov = ['dtype=' + case_dtype(case), 'piped=' + ''.join(str(int(x)) for x in piped), 'layout=' + case.get('layout', 'C'),
+           'qdata_sorted=%s' % bool(a._qdata_sorted), 'qtotal_a=%s' % ('0' if not np.any(a.qtotal) else '!=0')]
+    out = {'stored_blocks': int(a.stored_blocks), 'cov': cov}
     if np.linalg.norm(ad) == 0:
         out['problems'] = []
         out['skip'] = True
         return out
-    P = npc.pinv(a, cutoff=1e-9)
-    Pd = P.to_ndarray()
-    pd = np.linalg.pinv(ad, rcond=1e-10)
-    sc = max(1., np.linalg.norm(pd))
-    if Pd.shape != pd.shape or np.linalg.norm(Pd - pd) > 1e-7 * sc * nrm:
-        probs.append(('pinv:dense', 'pinv differs from numpy pinv: %.3e' % (np.linalg.norm(Pd - pd) if Pd.shape == pd.shape else -1)))
+    sall = np.linalg.svd(ad, compute_uv=False)
+
+    def gap(c):
+        """is the cutoff c far from every singular value (then the kept rank is unambiguous)?"""
+        return c is None or bool(np.all(np.abs(sall - c) > 1e-6 * nrm * es))
+    # ---- pinv
+    pc = o.get('pinv_cutoff', 1e-9)
+    if es > 1 and (pc is None or pc < 1e-3):
+        pc = 1e-3
+    if not gap(1e-15 if pc is None else pc):
+        pc = 1e-9 if es == 1 else 1e-3
+    cov.append('pinv:cutoff=%s' % ('default' if pc is None else 'tiny' if pc < 1e-6 else 'large'))
+    if pc is not None and np.all(sall <= pc):
+        cov.append('pinv:cutoff-above-all(skipped)')
     else:
-        for nm, x in (('a p a = a', ad @ Pd @ ad - ad), ('p a p = p', Pd @ ad @ Pd - Pd), ('(a p)^+ = a p', (ad @ Pd).conj().T - ad @ Pd),
-                      ('(p a)^+ = p a', (Pd @ ad).conj().T - Pd @ ad)):
-            if np.linalg.norm(x) > 1e-7 * sc * nrm * nrm:
-                probs.append(('pinv:moore-penrose', 'Moore-Penrose identity %s violated (%.2e)' % (nm, np.linalg.norm(x))))
-    if charge_rule_violations(P) or sane(P) is not None:
-        probs.append(('pinv:structure', 'pinv structure: %s' % sane(P)))
-    if not (contractible(P.legs[0], a.legs[1]) and contractible(P.legs[1], a.legs[0])):
-        probs.append(('pinv:legs', 'legs of pinv(a) are not contractible with the legs of a'))
-    # polar
+        P = npc.pinv(a) if pc is None else npc.pinv(a, cutoff=pc)
+        Pd = P.to_ndarray()
+        thr = 1e-15 if pc is None else pc
+        # dense reference with the documented convention: singular values <= cutoff (absolute) are dropped
+        u_, s_, v_ = np.linalg.svd(ad, full_matrices=False)
+        keep = s_ > (thr if pc is not None else 1e-12 * nrm)
+        pd = (v_[keep].conj().T / s_[keep]) @ u_[:, keep].conj().T
+        if not np.all(keep):
+            cov.append('pinv:drops-singular-values')
+        sc = max(1., np.linalg.norm(pd))
+        if Pd.shape != pd.shape or np.linalg.norm(Pd - pd) > 1e-7 * es * sc * nrm:
+            probs.append(('pinv:dense' + intd, 'pinv differs from the dense pseudo-inverse (cutoff %r): %.3e' % (pc, np.linalg.norm(Pd - pd) if Pd.shape == pd.shape else -1)))
+        else:
+            ar = (u_[:, keep] * s_[keep]) @ v_[keep]       # a restricted to the kept singular values
+            for nm, x in (('a p a = a', ar @ Pd @ ar - ar), ('p a p = p', Pd @ ar @ Pd - Pd), ('(a p)^+ = a p', (ar @ Pd).conj().T - ar @ Pd),
+                          ('(p a)^+ = p a', (Pd @ ar).conj().T - Pd @ ar)):
+                if np.linalg.norm(x) > 1e-7 * es * sc * nrm * nrm:
+                    probs.append(('pinv:moore-penrose', 'Moore-Penrose identity %s violated (%.2e)' % (nm, np.linalg.norm(x))))
+        if charge_rule_violations(P) or sane(P) is not None:
+            probs.append(('pinv:structure' + intd, 'pinv structure: %s' % sane(P)))
+        elif not intd:
+            try:      # a p a = a with npc operations
+                apa = npc.tensordot(npc.tensordot(a, P, axes=1), a, axes=1)
+                d = npc_dist(apa, a)
+                if d > 1e-7 * es * sc * nrm * nrm + float(np.linalg.norm(s_[~keep])):
+                    probs.append(('pinv:reuse', '|tensordot(tensordot(a, p), a) - a| = %.3e with npc operations' % d))
+            except Exception as e:
+                probs.append(('pinv:reuse', 'tensordot(tensordot(a, pinv(a)), a) - a raised %s: %s' % (type(e).__name__, str(e)[:100])))
+        if not (contractible(P.legs[0], a.legs[1]) and contractible(P.legs[1], a.legs[0])):
+            probs.append(('pinv:legs', 'legs of pinv(a) are not contractible with the legs of a'))
+        la = a.conj().get_leg_labels()       # documented: "return P.conj.transpose()"
+        if P.get_leg_labels() != [la[1], la[0]]:
+            probs.append(('pinv:labels', 'labels of pinv(a) %s for a with labels %s' % (P.get_leg_labels(), la)))
+        input_checks('pinv:', a, snap, [('pinv(a)', P)], probs)
+    # ---- polar
+    qc = o.get('polar_cutoff')
+    if es > 1 and (qc is None or qc < 1e-3):
+        qc = 1e-3
+    if qc is not None and qc > 1e-6 and not gap(qc):
+        qc = None if es == 1 else 1e-3
+    il = o.get('inner_labels')
     for left in (False, True):
-        u, p, s = npc.polar(a, left=left)[:3] if True else None
+        kw = {'left': left}
+        if qc is not None:
+            kw['cutoff'] = qc
+        if il is not None:
+            kw['inner_labels'] = il
+        if qc is not None and np.all(sall <= qc):
+            cov.append('polar:cutoff-above-all(skipped)')
+            break
+        cov.append('polar:left=%s,cutoff=%s%s' % (left, 'default' if qc is None else '0.0' if qc == 0 else 'tiny' if qc < 1e-6 else 'large',
+                                                 ',inner_labels' if il is not None else ''))
+        u, p, s = npc.polar(a, **kw)
         ud, pd_ = u.to_ndarray(), p.to_ndarray()
         rec = pd_ @ ud if left else ud @ pd_
-        if np.linalg.norm(rec - ad) > 1e-9 * nrm:
+        dropped = float(np.linalg.norm(sall[len(s):]))
+        if np.linalg.norm(rec - ad) > 1e-9 * es * nrm + dropped:
             squared = left and np.linalg.norm(pd_ - ad @ ad.conj().T) < 1e-9 * nrm * nrm
-            probs.append(('polar:reconstruct' + (':left:p=a.a^dagger' if squared else ''),
+            probs.append(('polar:reconstruct' + (':left:p=a.a^dagger' if squared else '') + intd,
                           'polar(left=%s): |p u - a| = %.2e%s' % (left, np.linalg.norm(rec - ad), ' (p equals a a^dagger = W s^2 W^dagger)' if squared else '')))
-        if np.linalg.norm(pd_ - pd_.conj().T) > 1e-9 * nrm or np.min(np.linalg.eigvalsh((pd_ + pd_.conj().T) / 2), initial=0.) < -1e-9 * nrm:
-            probs.append(('polar:psd', 'polar(left=%s): p is not hermitian positive semidefinite' % left))
+        if np.linalg.norm(pd_ - pd_.conj().T) > 1e-9 * es * nrm or np.min(np.linalg.eigvalsh((pd_ + pd_.conj().T) / 2), initial=0.) < -1e-9 * es * nrm:
+            probs.append(('polar:psd' + intd, 'polar(left=%s): p is not hermitian positive semidefinite' % left))
         k = len(s)
+        want = sall[sall > (qc if qc is not None else 1e-16)]
+        if qc is not None and qc > 1e-6 and (len(s) != len(want) or np.max(np.abs(np.sort(s)[::-1] - want), initial=0.) > 1e-8 * es * nrm):
+            probs.append(('polar:cutoff', 'polar(cutoff=%r) returns %d singular values, %d are greater than the cutoff' % (qc, len(s), len(want))))
         # u is a partial isometry of rank k
         sv = np.linalg.svd(ud, compute_uv=False)
-        if np.linalg.norm(sv[:k] - 1) > 1e-9 or np.linalg.norm(sv[k:]) > 1e-9:
-            probs.append(('polar:isometry', 'polar(left=%s): u is not a partial isometry' % left))
+        if np.linalg.norm(sv[:k] - 1) > 1e-9 * es or np.linalg.norm(sv[k:]) > 1e-9 * es:
+            probs.append(('polar:isometry' + intd, 'polar(left=%s): u is not a partial isometry' % left))
         if charge_rule_violations(u) or charge_rule_violations(p) or sane(u) is not None or sane(p) is not None:
-            probs.append(('polar:structure', 'polar structure'))
+            probs.append(('polar:structure' + intd, 'polar structure: %s %s' % (sane(u), sane(p))))
+        else:
+            # legs: u has the legs of a; p is a square matrix over the right (left=False) / left leg of a, contractible with u
+            la = a.get_leg_labels()
+            ok = all(u.legs[i].qconj == a.legs[i].qconj and np.array_equal(u.legs[i].to_qflat(), a.legs[i].to_qflat()) for i in (0, 1))
+            ok = ok and (contractible(p.legs[1], u.legs[0]) if left else contractible(u.legs[1], p.legs[0]))
+            if not ok:
+                probs.append(('polar:legs', 'polar(left=%s): legs of u differ from the legs of a or p is not contractible with u' % left))
+            if u.get_leg_labels() != la:
+                probs.append(('polar:labels', 'polar(left=%s): labels of u %s, of a %s' % (left, u.get_leg_labels(), la)))
+            if not intd:
+                try:
+                    d = npc_dist(npc.tensordot(p, u, axes=1) if left else npc.tensordot(u, p, axes=1), a)
+                    if d > 1e-9 * es * nrm + dropped:
+                        probs.append(('polar:reuse', 'polar(left=%s): |tensordot of the factors - a| = %.3e with npc operations' % (left, d)))
+                except Exception as e:
+                    probs.append(('polar:reuse', 'polar(left=%s): tensordot of the factors - a raised %s: %s' % (left, type(e).__name__, str(e)[:100])))
+        input_checks('polar:', a, snap, [('u', u), ('p', p)], probs)
     out['problems'] = probs
     return out
 
@@ -527,11 +946,39 @@ def run_ortho(case):
     """orthogonal_columns: case legs = [L, R] with R's sectors a sub-structure of L (full column rank)"""
     import tenpy.linalg.np_conserved as npc
     a = make_matrix(case)
+    snap = snapshot(a)
     ad = a.to_ndarray()
     M, N = ad.shape
     probs = []
-    out = {'stored_blocks': int(a.stored_blocks), 'shape': [M, N]}
-    if np.linalg.matrix_rank(ad) < N or M <= N:
+    intd = ':integer-dtype' if case_dtype(case) == 'i8' else ''
+    piped, b = a.as_completely_blocked()
+    rows = set(int(x) for x in b._qdata[:, 0])
+    nb = b.legs[0].block_number
+    cov = ['dtype=' + case_dtype(case), 'piped=' + ''.join(str(int(x)) for x in piped), 'layout=' + case.get('layout', 'C'),
+           'qdata_sorted=%s' % bool(a._qdata_sorted), 'qtotal_a=%s' % ('0' if not np.any(a.qtotal) else '!=0'),
+           'right_qconj=%s' % ('-left' if a.legs[1].qconj == -a.legs[0].qconj else 'left'),
+           'new_label=%s' % (case['opts'].get('new_label') is not None)]
+    if 0 not in rows:
+        cov.append('first-row-sector-without-block')
+    if nb - 1 not in rows:
+        cov.append('last-row-sector-without-block')
+    if any(q not in rows for q in range(1, nb - 1)):
+        cov.append('middle-row-sector-without-block')
+    if any(blk.shape[0] == blk.shape[1] for blk in b._data):
+        cov.append('square-block(no-orthogonal-column)')
+    out = {'stored_blocks': int(a.stored_blocks), 'shape': [M, N], 'cov': cov}
+    if M < N:
+        cov.append('M<N:raises')
+        try:
+            npc.orthogonal_columns(a)
+            probs.append(('ortho:wide', 'orthogonal_columns of a %dx%d matrix (overcomplete) did not raise ValueError' % (M, N)))
+        except ValueError:
+            pass
+        out['problems'] = probs
+        return out
+    if M == N:
+        cov.append('M==N:empty-result')
+    elif np.linalg.matrix_rank(ad) < N:
         out['skip'] = True
         out['problems'] = []
         return out
@@ -541,11 +988,19 @@ def run_ortho(case):
         probs.append(('ortho:shape', 'shape %s, expected (%d, %d)' % (Od.shape, M, M - N)))
     else:
         if np.linalg.norm(Od.conj().T @ Od - np.eye(M - N)) > 1e-10 * M:
-            probs.append(('ortho:isometry', 'ortho^dagger ortho != 1'))
+            probs.append(('ortho:isometry' + intd, 'ortho^dagger ortho != 1'))
         if np.linalg.norm(Od.conj().T @ ad) > 1e-9 * max(1., np.linalg.norm(ad)):
-            probs.append(('ortho:orthogonal', 'ortho^dagger a != 0'))
+            probs.append(('ortho:orthogonal' + intd, 'ortho^dagger a != 0'))
     if charge_rule_violations(O) or sane(O) is not None:
-        probs.append(('ortho:structure', 'structure: %s' % sane(O)))
+        probs.append(('ortho:structure' + intd, 'structure: %s' % sane(O)))
+    elif M > N:
+        try:      # ortho^dagger a = 0 and ortho^dagger ortho = 1 with npc operations
+            d = float(npc.norm(npc.tensordot(O.conj(), a, axes=[0, 0])))
+            e = float(npc.norm(npc.tensordot(O.conj(), O, axes=[0, 0]) - npc.diag(1.0, O.legs[1].conj(), dtype=O.dtype)))
+            if d > 1e-9 * max(1., np.linalg.norm(ad)) or e > 1e-10 * M:
+                probs.append(('ortho:reuse' + intd, '|tensordot(ortho.conj(), a)| = %.3e, |ortho^dagger ortho - 1| = %.3e with npc operations' % (d, e)))
+        except Exception as e:
+            probs.append(('ortho:reuse' + intd, 'tensordot(ortho.conj(), a) raised %s: %s' % (type(e).__name__, str(e)[:100])))
     if np.any(O.qtotal != a.qtotal):
         probs.append(('ortho:qtotal', 'qtotal'))
     lab = case['opts'].get('new_label')
@@ -553,6 +1008,9 @@ def run_ortho(case):
         probs.append(('ortho:labels', 'labels %s' % O.get_leg_labels()))
     if not (np.array_equal(O.legs[0].to_qflat(), a.legs[0].to_qflat()) and O.legs[0].qconj == a.legs[0].qconj):
         probs.append(('ortho:outer-leg', 'left leg differs'))
+    if O.legs[1].qconj != a.legs[1].qconj:
+        probs.append(('ortho:right-qconj', 'qconj of the new right leg differs from the right leg of a'))
+    input_checks('ortho:', a, snap, [('ortho', O)], probs)
     out['problems'] = probs
     return out
 
@@ -593,6 +1051,7 @@ class Patched:
 def plan_matrix(case):
     c = dict(case)
     c['complex'] = False
+    c['dtype'] = 'f8'
     a = make_matrix(c)
     _, b, binfo = blocked_info(a)
     return a, b, binfo
@@ -688,16 +1147,487 @@ def run_plan(case):
     raise ValueError(what)
 
 
+# ------------------------------------------------------------------------------------------------
+# 'aux' stream: the dense helpers behind the npc routines (svd_robust.svd, tools.math.qr_li / rq_li / speigs / speigsh /
+# matvec_to_array), npc.norm, rejected requests, and the rarely taken retry branches (NaN from gesdd, LinAlgError in gesdd)
+# ------------------------------------------------------------------------------------------------
+
+def dense_matrix(case):
+    """integer valued M x N matrix of rank r (dtype / memory layout of the case)"""
+    rng = np.random.default_rng(case['seed'])
+    M, N, r = case['M'], case['N'], min(case['r'], case['M'], case['N'])
+    cplx = case.get('dtype', 'f8') in ('c16', 'c8')
+
+    def ints(shape):
+        x = rng.integers(-4, 5, size=shape).astype(np.float64)
+        return x + 1j * rng.integers(-4, 5, size=shape) if cplx else x
+    if r == min(M, N):
+        A = ints((M, N))
+    else:
+        A = ints((M, r)) @ ints((r, N)) if r > 0 else np.zeros((M, N)) * ints((1, 1))[0, 0]
+    A = A.astype(DTYPES[case.get('dtype', 'f8')])
+    lay = case.get('layout', 'C')
+    if lay == 'F':
+        A = np.asfortranarray(A)
+    elif lay == 'view':
+        big = np.zeros((2 * M + 1, 2 * N + 1), dtype=A.dtype, order='F')
+        v = big[1::2, 1::2]
+        v[...] = A
+        A = v
+    return A
+
+
+class MatvecOp:
+    """linear operator with only shape, dtype and matvec (tools.math.matvec_to_array)"""
+
+    def __init__(self, A):
+        self.A = A
+        self.shape = A.shape
+        self.dtype = A.dtype
+
+    def matvec(self, v):
+        return self.A @ v
+
+
+def expect_raise(f, exc):
+    try:
+        f()
+    except exc:
+        return None
+    except Exception as e:
+        return 'raised %s instead of %s: %s' % (type(e).__name__, exc.__name__, str(e)[:80])
+    return 'did not raise %s' % exc.__name__
+
+
+def run_aux(case):
+    import tenpy.linalg.np_conserved as npc
+    import tenpy.linalg.svd_robust as svd_robust
+    import tenpy.tools.math as tm
+    import scipy.linalg
+    what = case['what']
+    probs, cov = [], []
+    out = {'stored_blocks': 2, 'cov': cov, 'problems': probs}
+    o = case.get('opts', {})
+    if what == 'svd_robust':
+        A = dense_matrix(case)
+        A0 = A.copy()
+        M, N = A.shape
+        drv = o.get('lapack_driver', 'gesdd')
+        kw = {'full_matrices': o.get('full_matrices', True), 'compute_uv': o.get('compute_uv', True), 'overwrite_a': o.get('overwrite_a', False),
+              'check_finite': o.get('check_finite', True), 'lapack_driver': drv, 'warn': o.get('warn', True)}
+        if o.get('defaults'):
+            kw = {}
+            drv = 'gesdd'
+        fail = bool(o.get('fail_gesdd'))
+        cov += ['svd_robust:%s=%s' % (k, v) for k, v in sorted(kw.items())] + ['svd_robust:gesdd-fails=%s' % fail, 'svd_robust:layout=' + case.get('layout', 'C'),
+                                                                               'svd_robust:dtype=' + case.get('dtype', 'f8')]
+        calls = []
+        true_svd = scipy.linalg.svd
+
+        def stub(a, full_matrices=True, compute_uv=True, overwrite_a=False, check_finite=True, lapack_driver='gesdd'):
+            calls.append((lapack_driver, bool(overwrite_a)))
+            if lapack_driver == 'gesdd' and fail:
+                raise np.linalg.LinAlgError('SVD did not converge')
+            return true_svd(a, full_matrices, compute_uv, overwrite_a, check_finite, lapack_driver)
+        if drv == 'bad':
+            e = expect_raise(lambda: svd_robust.svd(A, **kw), ValueError)
+            if e:
+                probs.append(('svd_robust:invalid-driver', "svd_robust.svd(lapack_driver='bad') " + e))
+            return out
+        with warnings.catch_warnings(record=True) as wlist:
+            warnings.simplefilter('always')
+            with Patched((scipy.linalg, 'svd', stub)):
+                res = svd_robust.svd(A, **kw)
+        warned = any('gesdd' in str(w.message) for w in wlist)
+        full = kw.get('full_matrices', True)
+        if fail and drv == 'gesdd' and warned != kw.get('warn', True):
+            probs.append(('svd_robust:warn', 'gesdd failed, warn=%s, warning emitted: %s' % (kw.get('warn', True), warned)))
+        if (fail and drv == 'gesdd') and [c[0] for c in calls] != ['gesdd', 'gesvd']:
+            probs.append(('svd_robust:fallback', 'gesdd failed: LAPACK drivers called %s, expected gesdd then gesvd' % [c[0] for c in calls]))
+        if drv == 'gesvd' and [c[0] for c in calls] != ['gesvd']:
+            probs.append(('svd_robust:driver', "lapack_driver='gesvd': drivers called %s" % [c[0] for c in calls]))
+        if any(c == ('gesdd', True) for c in calls):
+            probs.append(('svd_robust:overwrite', 'overwrite_a=True passed on to gesdd (documented: ignored for gesdd)'))
+        if (not kw.get('overwrite_a', False) or (drv == 'gesdd' and not fail)) and not np.array_equal(A, A0):
+            probs.append(('svd_robust:input-changed', 'the input matrix was overwritten (overwrite_a=%s, driver %s)' % (kw.get('overwrite_a', False), drv)))
+        sref = np.linalg.svd(A0.astype(np.complex128 if np.iscomplexobj(A0) else np.float64), compute_uv=False)
+        es = 3e5 if case.get('dtype') in ('f4', 'c8') else 1.0
+        nrm = max(1., np.linalg.norm(A0))
+        if not kw.get('compute_uv', True):
+            S = res
+            if not isinstance(S, np.ndarray) or S.shape != sref.shape or np.max(np.abs(S - sref), initial=0.) > 1e-10 * es * nrm:
+                probs.append(('svd_robust:S', 'compute_uv=False: singular values differ from numpy'))
+        else:
+            U, S, Vh = res
+            K = min(M, N)
+            shapes = ((M, M), (K,), (N, N)) if full else ((M, K), (K,), (K, N))
+            if (U.shape, S.shape, Vh.shape) != shapes:
+                probs.append(('svd_robust:shape', 'shapes %s, expected %s' % ((U.shape, S.shape, Vh.shape), shapes)))
+            else:
+                if np.max(np.abs(S - sref), initial=0.) > 1e-10 * es * nrm or np.any(S < 0) or np.any(np.diff(S) > 0):
+                    probs.append(('svd_robust:S', 'singular values differ from numpy / not sorted / negative'))
+                if np.linalg.norm((U[:, :K] * S) @ Vh[:K, :] - A0) > 1e-10 * es * nrm:
+                    probs.append(('svd_robust:reconstruct', '|U S Vh - a| = %.2e' % np.linalg.norm((U[:, :K] * S) @ Vh[:K, :] - A0)))
+                if np.linalg.norm(U.conj().T @ U - np.eye(U.shape[1])) > 1e-10 * es * M or np.linalg.norm(Vh @ Vh.conj().T - np.eye(Vh.shape[0])) > 1e-10 * es * N:
+                    probs.append(('svd_robust:isometry', 'U or Vh not isometric'))
+        return out
+    if what in ('qr_li', 'rq_li'):
+        A = dense_matrix(case)
+        A0 = A.copy()
+        M, N = A.shape
+        cut = o.get('cutoff')
+        kw = {} if cut is None else {'cutoff': cut}
+        c = 1e-15 if cut is None else cut
+        sv = np.linalg.svd(A0, compute_uv=False) if min(M, N) else np.zeros(0)
+        nrm = max(1., np.linalg.norm(A0))
+        rank = int(np.sum(sv > 1e-10 * nrm))
+        cov += ['%s:cutoff=%s' % (what, 'default' if cut is None else 'tiny' if cut < 1e-3 else 'large'),
+                '%s:shape=%s' % (what, 'M<N' if M < N else 'M>N' if M > N else 'M==N'), '%s:layout=%s' % (what, case.get('layout', 'C')),
+                '%s:%s' % (what, 'zero-matrix' if rank == 0 else 'rank-deficient' if rank < min(M, N) else 'full-rank'),
+                '%s:dtype=%s' % (what, case.get('dtype', 'f8'))]
+        if what == 'qr_li':
+            Q, R = tm.qr_li(A, **kw)
+            rec = Q @ R
+            iso = Q.conj().T @ Q
+            K = Q.shape[1]
+            tri = np.linalg.norm(np.tril(R, -1))
+            shapes_ok = Q.shape == (M, K) and R.shape == (K, N)
+        else:
+            R, Q = tm.rq_li(A, **kw)
+            rec = R @ Q
+            iso = Q @ Q.conj().T
+            K = Q.shape[0]
+            # documented shape of R: (M, K), nonzero only in the upper right: R[i, j] = 0 for i > j + (M - K)
+            ii, jj = np.indices(R.shape) if R.ndim == 2 else (np.zeros((0, 0)), np.zeros((0, 0)))
+            tri = np.linalg.norm(R[ii > jj + (M - K)]) if R.size else 0.
+            shapes_ok = Q.shape == (K, N) and R.shape == (M, K)
+        if not np.array_equal(A, A0):
+            probs.append((what + ':input-changed', 'the input matrix was overwritten'))
+        bound = c * np.sqrt(min(M, N) * max(M, N))
+        klow = int(np.sum(sv > bound * (1 + 1e-6) + 1e-10 * nrm))
+        if not shapes_ok:
+            probs.append((what + ':shape', 'shapes Q %s R %s for A %s' % (Q.shape, R.shape, A.shape)))
+        else:
+            if np.linalg.norm(rec - A0) > 1e-10 * nrm + bound:
+                probs.append((what + ':reconstruct', '|Q R - A| = %.2e (cutoff %r)' % (np.linalg.norm(rec - A0), c)))
+            if np.linalg.norm(iso - np.eye(K)) > 1e-10 * max(1, K):
+                probs.append((what + ':isometry', 'Q is not an isometry'))
+            if tri > 1e-10 * nrm:
+                probs.append((what + ':triangular', 'R is not upper right'))
+            if K < klow or K > min(M, N) or (1e-12 < c < 1e-3 and K != rank):
+                probs.append((what + ':cutoff-rank', 'cutoff %r: K = %d, rank %d, at least %d singular values far above the cutoff' % (c, K, rank, klow)))
+        return out
+    if what in ('speigs', 'speigsh'):
+        herm = what == 'speigsh'
+        rng = np.random.default_rng(case['seed'])
+        d = case['d']
+        cplx = case.get('dtype') == 'c16'
+        A = rng.integers(-4, 5, size=(d, d)).astype(np.float64)
+        if cplx:
+            A = A + 1j * rng.integers(-4, 5, size=(d, d))
+        if herm:
+            A = A + A.conj().T
+        A0 = A.copy()
+        k = max(1, d + o.get('k_rel', 0)) if o.get('k_rel') is not None else o.get('k', 1)
+        which = o.get('which', 'LM')
+        ret = o.get('ret', 'vectors')
+        op = MatvecOp(A) if o.get('operator') else A
+        arpack = k < d - 1
+        if arpack and o.get('operator'):
+            import scipy.sparse.linalg
+            op = scipy.sparse.linalg.LinearOperator(A.shape, matvec=lambda v: A @ v, dtype=A.dtype)
+        f = tm.speigsh if herm else tm.speigs
+        v0 = np.ones(d)
+        cov += ['%s:%s' % (what, 'arpack' if arpack else 'dense'), '%s:ret=%s' % (what, ret), '%s:which=%s' % (what, which),
+                '%s:A=%s' % (what, 'operator' if o.get('operator') else 'ndarray')]
+        if k > d:
+            cov.append(what + ':k>d')
+        with warnings.catch_warnings(record=True) as wlist:
+            warnings.simplefilter('always')
+            try:
+                if ret == 'vectors':
+                    W, V = f(op, k, which=which, v0=v0)
+                elif ret == 'kw_false':
+                    W, V = f(op, k, which=which, v0=v0, return_eigenvectors=False), None
+                elif ret == 'args':
+                    W, V = f(op, k, None, None, which, v0, None, None, 0, True)
+                else:
+                    W, V = f(op, k, None, None, which, v0, None, None, 0, False), None
+            except Exception as e:
+                if 'Arpack' not in type(e).__name__:
+                    probs.append((what + ':raises', '%s raised %s: %s' % (what, type(e).__name__, str(e)[:100])))
+                return out
+        if k > d and not any('trimming' in str(w.message) for w in wlist):
+            probs.append((what + ':warn', 'k > d: no warning about the trimmed k'))
+        W = np.asarray(W)
+        wall = np.linalg.eigvalsh(A0) if herm else np.linalg.eigvals(A0)
+        kexp = min(k, d)
+        nrm = max(1., np.linalg.norm(A0))
+        suffix = ':return_eigenvectors=False:dense-branch' if (V is None and not arpack) else ''
+        if len(W) != kexp:
+            probs.append((what + ':count' + suffix, '%s(k=%d) for d=%d returned %d eigenvalues (return mode %s)' % (what, k, d, len(W), ret)))
+        else:
+            key = SORT_KEY[which]
+            want, got = np.sort(key(wall))[:kexp], np.sort(key(W))
+            if np.max(np.abs(want - got), initial=0.) > 1e-6 * nrm:
+                probs.append((what + ':selection' + suffix, '%s(which=%r, k=%d): keys of the returned eigenvalues %s, wanted %s' % (
+                    what, which, k, np.round(got, 6).tolist(), np.round(want, 6).tolist())))
+        if V is not None:
+            if V.shape != (d, len(W)):
+                probs.append((what + ':shape', 'eigenvector array shape %s' % (V.shape,)))
+            elif np.linalg.norm(A0 @ V - V * W) > 1e-6 * nrm or np.max(np.abs(np.linalg.norm(V, axis=0) - 1), initial=0.) > 1e-8:
+                probs.append((what + ':eigenpair', '|A V - V W| = %.2e' % np.linalg.norm(A0 @ V - V * W)))
+        if not np.array_equal(A, A0):
+            probs.append((what + ':input-changed', 'input overwritten'))
+        return out
+    if what == 'norm':
+        a = make_matrix(case)
+        snap = snapshot(a)
+        ad = a.to_ndarray()
+        kind = o.get('arg', 'Array')
+        ord_ = {'None': None, 'inf': np.inf, '-inf': -np.inf}.get(o.get('ord'), o.get('ord'))
+        ctf = o.get('convert_to_float', True)
+        cov += ['norm:arg=%s' % kind, 'norm:ord=%s' % o.get('ord'), 'norm:convert_to_float=%s' % ctf, 'norm:dtype=%s' % case_dtype(case)]
+        flat = ad.reshape(-1).astype(np.result_type(np.float32, ad.dtype))
+        if kind == 'Array':
+            got, want = npc.norm(a, ord_, ctf), np.linalg.norm(flat, ord_)
+        elif kind == 'ndarray':
+            got, want = npc.norm(ad, ord_, ctf), np.linalg.norm(flat, ord_)
+        else:
+            got, want = npc.norm([a, 2 * a, ad]), np.sqrt(6.) * np.linalg.norm(flat)
+        if kind == 'Array' and o.get('ord') == '-inf' and got == 0:
+            cov.append('norm:Array,-inf:always-0(not-compared)')       # Array.norm appends a 0 to the block norms: min(|x|) is always 0
+        elif not np.isfinite(got) or abs(got - want) > 1e-9 * eps_scale(case) * max(1., abs(want)):
+            probs.append(('norm:value', 'npc.norm(%s, ord=%r) = %r, numpy on the flat dense data gives %r' % (kind, ord_, got, want)))
+        if changed(a, snap):
+            probs.append(('norm:input-changed', 'norm changed its argument'))
+        return out
+    if what == 'reject':
+        a = make_matrix(case)          # a valid square matrix with vanishing total charge, several sectors
+        ci = a.chinfo
+        item = o['item']
+        cov.append('reject:' + item)
+        l0 = a.legs[0]
+        rank3 = npc.Array.from_func(np.ones, [l0, l0.conj(), l0])
+        wide = npc.Array.from_func(np.ones, [l0, npc.LegCharge.from_qflat(ci, np.concatenate([l0.to_qflat(), l0.to_qflat()]), -l0.qconj)])
+        charged = a.copy(deep=True)
+        bad_q = None
+        if ci.qnumber:       # a square matrix with non-zero total charge
+            for qt in l0.charges:
+                for qt2 in l0.charges:
+                    dq = ci.make_valid(l0.qconj * (qt - qt2))
+                    if np.any(dq != 0):
+                        bad_q = dq
+            if bad_q is not None:
+                charged = npc.Array.from_func(np.ones, [l0, l0.conj()], qtotal=bad_q)
+                if charged.stored_blocks == 0:
+                    bad_q = None
+        noncontr = npc.Array.from_func(np.ones, [l0, l0]) if ci.qnumber and np.any(l0.charges != 0) else None
+        table = {
+            'svd:rank3': (lambda: npc.svd(rank3), ValueError),
+            'svd:full_matrices+cutoff': (lambda: npc.svd(a, full_matrices=True, cutoff=1e-9), ValueError),
+            'svd:full_matrices+compute_uv=False': (lambda: npc.svd(a, full_matrices=True, compute_uv=False), ValueError),
+            'svd:qtotal_LR-inconsistent': (lambda: npc.svd(a, qtotal_LR=[ci.make_valid(a.qtotal + 1), ci.make_valid(a.qtotal + 1)]), ValueError)
+            if (ci.qnumber and np.any(ci.make_valid(a.qtotal + 2) != a.qtotal)) else None,
+            'polar:rank3': (lambda: npc.polar(rank3), ValueError),
+            'polar:cutoff<0': (lambda: npc.polar(a, cutoff=-1e-3), ValueError),
+            'pinv:cutoff=0': (lambda: npc.pinv(a, cutoff=0.0), ValueError),
+            'pinv:cutoff<0': (lambda: npc.pinv(a, cutoff=-1.0), ValueError),
+            'qr:rank3': (lambda: npc.qr(rank3), ValueError),
+            'lq:rank3': (lambda: npc.lq(rank3), ValueError),
+            'orthogonal_columns:rank3': (lambda: npc.orthogonal_columns(rank3), ValueError),
+            'orthogonal_columns:M<N': (lambda: npc.orthogonal_columns(wide), ValueError),
+            'expm:non-square': (lambda: npc.expm(wide), ValueError),
+            'expm:qtotal!=0': (lambda: npc.expm(charged), NotImplementedError) if bad_q is not None else None,
+            'expm:not-contractible': (lambda: npc.expm(noncontr), ValueError) if noncontr is not None else None,
+            'speigs:non-square': (lambda: npc.speigs(wide, l0.get_charge(0), 1), ValueError),
+            'speigs:qtotal!=0': (lambda: npc.speigs(charged, l0.get_charge(0), 1), ValueError) if bad_q is not None else None,
+            'speigs:sector-not-in-leg': (lambda: npc.speigs(a, o.get('absent_sector'), 1), ValueError) if o.get('absent_sector') is not None else None,
+        }
+        table['norm:unknown-type'] = (lambda: npc.norm('not an array'), ValueError)
+        table['tools.speigs:non-square'] = (lambda: tm.speigs(np.ones((2, 3)), 1), ValueError)
+        table['tools.speigsh:non-square'] = (lambda: tm.speigsh(np.ones((2, 3)), 1), ValueError)
+        for nm, f in (('eigh', npc.eigh), ('eig', npc.eig), ('eigvalsh', npc.eigvalsh), ('eigvals', npc.eigvals)):
+            table[nm + ':non-square'] = (lambda f=f: f(wide), ValueError)
+            table[nm + ':rank3'] = (lambda f=f: f(rank3), ValueError)
+            table[nm + ':qtotal!=0'] = (lambda f=f: f(charged), ValueError) if bad_q is not None else None
+            table[nm + ':not-contractible'] = (lambda f=f: f(noncontr), ValueError) if noncontr is not None else None
+        ent = table.get(item)
+        if item not in table:
+            raise ValueError('unknown reject item ' + item)
+        if ent is None:
+            out['skip'] = True
+            cov[-1] += '(not-applicable)'
+            return out
+        e = expect_raise(ent[0], ent[1])
+        if e:
+            probs.append(('reject:' + item, 'invalid request %s: %s' % (item, e)))
+        return out
+    if what == 'svd_nan':
+        # gesdd returns NaN for some blocks: _svd_worker has to retry with gesvd (and warn); NaN twice -> ValueError
+        a = make_matrix(case)
+        snap = snapshot(a)
+        ad = a.to_ndarray()
+        nrm = max(1., np.linalg.norm(ad))
+        true = npc.svd_flat
+        calls = []
+        mode = o.get('mode', 'retry')       # 'retry' | 'both' | 'S'
+        hit = o.get('block', 0)
+        nb = max(1, a.as_completely_blocked()[1].stored_blocks)
+        cuv = mode != 'S'
+
+        def stub(block, full_matrices=True, compute_uv=True, overwrite_a=False, check_finite=True, lapack_driver='gesdd', warn=True):
+            idx = sum(1 for c in calls if c[1] == 'gesdd')
+            calls.append((idx, lapack_driver))
+            res = true(block, full_matrices, compute_uv, overwrite_a, check_finite, lapack_driver)
+            poison = (idx % nb) == (hit % nb) if lapack_driver == 'gesdd' else (mode == 'both')
+            if not poison:
+                return res
+            if compute_uv:
+                U, S, V = res
+                U = U.copy()
+                U[0, 0] = np.nan
+                return U, S, V
+            S = res.copy()
+            S[0] = np.nan
+            return S
+        cov.append('svd_nan:' + mode + (',full_matrices' if o.get('full_matrices') else ''))
+        with warnings.catch_warnings(record=True) as wlist:
+            warnings.simplefilter('always')
+            with Patched((npc, 'svd_flat', stub)):
+                try:
+                    res = npc.svd(a, full_matrices=bool(o.get('full_matrices')), compute_uv=cuv)
+                    raised = None
+                except ValueError as e:
+                    raised = e
+        if mode in ('both', 'S'):
+            if raised is None:
+                probs.append(('svd_nan:no-error', 'LAPACK returned NaN (%s): svd returned a result instead of raising ValueError' % mode))
+            return out
+        if raised is not None:
+            probs.append(('svd_nan:raises', 'gesdd returned NaN once: svd raised %s instead of retrying with gesvd' % raised))
+            return out
+        U, S, VH = res
+        if not any('gesvd' in str(w.message) for w in wlist) or 'gesvd' not in [c[1] for c in calls]:
+            probs.append(('svd_nan:no-retry', 'gesdd returned NaN: no retry with gesvd / no warning'))
+        if not o.get('full_matrices'):
+            rec = U.to_ndarray() @ np.diag(S) @ VH.to_ndarray()
+            if np.any(np.isnan(rec)) or np.linalg.norm(rec - ad) > 1e-10 * nrm:
+                probs.append(('svd_nan:reconstruct', 'after the gesvd retry |U S VH - a| = %r' % np.linalg.norm(rec - ad)))
+        elif np.any(np.isnan(U.to_ndarray())) or np.any(np.isnan(VH.to_ndarray())):
+            probs.append(('svd_nan:reconstruct', 'NaN in the factors after the gesvd retry'))
+        c = changed(a, snap)
+        if c:
+            probs.append(('svd_nan:input-changed', 'input changed: ' + c))
+        return out
+    raise ValueError(what)
+
+
+# ------------------------------------------------------------------------------------------------
+# line coverage of the anchored functions inside this runner process (sys.monitoring, python >= 3.12)
+# ------------------------------------------------------------------------------------------------
+
+ANCHORED = {
+    'tenpy.linalg.np_conserved': ['svd', 'polar', 'pinv', 'norm', 'eigh', 'eig', 'eigvalsh', 'eigvals', 'speigs', 'expm', 'qr', 'lq',
+                                  'orthogonal_columns', '_svd_worker', '_eig_worker', '_eigvals_worker', 'Array.as_completely_blocked', 'Array.norm'],
+    'tenpy.linalg.svd_robust': ['svd'],
+    'tenpy.tools.math': ['qr_li', 'rq_li', 'speigs', 'speigsh', 'matvec_to_array'],
+}
+
+
+def _walk_code(code):
+    yield code
+    for c in code.co_consts:
+        if hasattr(c, 'co_code'):
+            yield from _walk_code(c)
+
+
+class LineCov:
+    def __init__(self):
+        self.codes = {}
+        self.hits = set()
+        self.exe = {}
+        self.on = False
+
+    def start(self):
+        import importlib
+        mon = getattr(sys, 'monitoring', None)
+        if mon is None:
+            return
+        try:
+            mon.use_tool_id(mon.COVERAGE_ID, 'c05cov')
+        except ValueError:
+            return
+        for modname, names in ANCHORED.items():
+            mod = importlib.import_module(modname)
+            for nm in names:
+                obj = mod
+                try:
+                    for part in nm.split('.'):
+                        obj = getattr(obj, part)
+                    code = obj.__code__
+                except AttributeError:
+                    self.exe[modname + ':' + nm] = None
+                    continue
+                key = modname + ':' + nm
+                lines = set()
+                for c in _walk_code(code):
+                    self.codes[c] = key
+                    lines |= {l for (_, _, l) in c.co_lines() if l is not None}
+                    mon.set_local_events(mon.COVERAGE_ID, c, mon.events.LINE)
+                # the def line itself is executed at import time only
+                lines.discard(code.co_firstlineno)
+                self.exe[key] = sorted(lines)
+
+        def cb(code, line):
+            k = self.codes.get(code)
+            if k is not None:
+                self.hits.add((k, line))
+            return mon.DISABLE
+        mon.register_callback(mon.COVERAGE_ID, mon.events.LINE, cb)
+        self.on = True
+
+    def report(self):
+        if not self.on:
+            return None
+        hit = {}
+        for k, l in self.hits:
+            hit.setdefault(k, []).append(l)
+        return {'executable': self.exe, 'hit': {k: sorted(v) for k, v in hit.items()}}
+
+
+def reflect():
+    """public names and signatures of the anchored modules (read from the code under test by reflection)"""
+    import importlib
+    import inspect
+    res = {}
+    for modname in ANCHORED:
+        mod = importlib.import_module(modname)
+        fns = {}
+        for nm, f in vars(mod).items():
+            if inspect.isfunction(f) and f.__module__ == modname:
+                sig = inspect.signature(f)
+                fns[nm] = [[p.name, str(p.kind), None if p.default is inspect.Parameter.empty else repr(p.default)] for p in sig.parameters.values()]
+        res[modname] = {'all': list(getattr(mod, '__all__', [])), 'functions': fns}
+    return res
+
+
 def main():
     payload = json.load(open(sys.argv[1]))
-    f = {'svd': run_svd, 'qr': run_qr, 'eig': run_eig, 'pinv': run_pinv, 'ortho': run_ortho, 'plan': run_plan}[payload['kind']]
+    if payload['kind'] == 'reflect':
+        json.dump({'reflect': reflect()}, open(sys.argv[2], 'w'))
+        return
+    f = {'svd': run_svd, 'qr': run_qr, 'eig': run_eig, 'pinv': run_pinv, 'ortho': run_ortho, 'plan': run_plan, 'aux': run_aux}[payload['kind']]
+    lc = LineCov()
+    if payload.get('linecov', True):
+        lc.start()
     res = []
     for c in payload['cases']:
         try:
             res.append(f(c))
         except Exception:
             res.append({'runner_error': traceback.format_exc()[-900:]})
-    json.dump(res, open(sys.argv[2], 'w'))
+    json.dump({'results': res, 'linecov': lc.report()}, open(sys.argv[2], 'w'))
 
 
 if __name__ == '__main__':
